@@ -596,6 +596,12 @@ def run(ctx):
             found.append(('calc_sub_max_bonds', {'oracle': 'calc_sub_max_bonds_model', 'sizes': list(meta2[i][0]), 'max_bond': meta2[i][1],
                                                  'detail': 'result differs from the exact model (%s)' % meta2[i][2]}))
 
+    # ---- the truncated FACTORS (Model/Truncate.a_svd_truncated) vs svd_truncated under the same exact svd stub
+    import tie_truncate
+    tie_broken += tie_truncate.tie(ctx, sr)
+    for f in tie_truncate.found[:3]:      # reported at once: the streams below may not survive a broken svd_truncated
+        ctx.violation('C13 truncated factors: %s' % (f.get('error') or f.get('raised')), {'oracle': 'tie_truncate', **f})
+
     # ---- second stream: REAL svd on random matrices, tolerance
     real_fails = real_stream(ctx, sr, 60 if ctx.thorough else 20, st)
     found += real_fails
@@ -620,7 +626,7 @@ def run(ctx):
         ctx.violation('regression of the fixed defect F7: a cumulative cutoff above the total weight keeps values '
                       '(modes 1/2 keep nothing there): %s' % rp['detail'], rp)
     ctx.broken += tie_broken
-    if (not ok or tie_broken) and not found:
+    if (not ok or tie_broken) and not found and not ctx.violations:
         ctx.violation('proof obligation or tie of C13 no longer checks', {'broken': ctx.broken}, found_input=False)
     ctx.coverage['rule'] = (
         'matrices given by exact factors (signed-permutation isometries, integer singular values scaled by 2^-j) over Z2/U1/Z4/Z2Z2/U1U1, '
